@@ -47,6 +47,8 @@ def _geoms(tier):
              only=[HOLE, B.CDATA]),
         dict(kind="hosted", grain=8, W=3, cut=0, at=129 * 512 - 2, total=129 * 512 + 1, alpha="H3", comp=True, footer=True,
              stride=10, only=[HOLE, ZERO, DATA]),
+        # beyond 128 grain tables (the size of the grain-table cache), header-located grain directory, tables in reverse order
+        dict(kind="hosted", grain=8, W=3, cut=2, at=130 * 512 - 1, total=130 * 512 + 3, alpha="H3", gt_order="desc"),
         dict(kind="cowd", grain=8, W=4, cut=3, at=0, total=None, alpha="CW"),
         dict(kind="cowd", grain=1, W=4, cut=0, at=4094, total=4099, alpha="CW"),
         dict(kind="sesparse", grain=8, W=3, cut=0, at=0, total=None, alpha="SE", gts=64, cbase=0),
